@@ -65,14 +65,34 @@ func (o goStructObject) method(name string) (reflect.Method, bool) { //nolint:un
 }
 
 func (o goStructObject) setValue(rt *runtime, name string, value Value) bool {
-	if idx := fieldIndexByName(reflect.Indirect(o.value).Type(), name); len(idx) == 0 {
+	structValue := reflect.Indirect(o.value)
+	var fieldValue reflect.Value
+	if idx := fieldIndexByName(structValue.Type(), name); len(idx) > 0 {
+		fieldValue = structValue.FieldByIndex(idx)
+	} else if sf, ok := structValue.Type().FieldByName(name); ok && validGoStructName(name) {
+		// A field that getValue finds only by Go's own rules (promoted through an embedded pointer or an
+		// unexported embedded struct, or kept out of the tag lookup by json:"-"): a write goes to that same
+		// field, allocating a nil embedded pointer on the way as Go code would have to.
+		fieldValue = structValue
+		for _, i := range sf.Index {
+			if fieldValue.Kind() == reflect.Ptr {
+				if fieldValue.IsNil() {
+					if !fieldValue.CanSet() {
+						panic(rt.panicTypeError("cannot assign to field %q of the Go struct: it lies behind a nil pointer that cannot be set", name))
+					}
+					fieldValue.Set(reflect.New(fieldValue.Type().Elem()))
+				}
+				fieldValue = fieldValue.Elem()
+			}
+			fieldValue = fieldValue.Field(i)
+		}
+	} else {
 		return false
 	}
 
-	fieldValue := o.getValue(name)
 	if !fieldValue.CanSet() {
-		// A struct handed over by value (not by pointer) is not addressable; reflect would panic.
-		panic(rt.panicTypeError("cannot assign to field %q of a Go struct that was not passed by pointer", name))
+		// Not addressable (the struct was handed over by value) or reached through an unexported field.
+		panic(rt.panicTypeError("cannot assign to field %q of the Go struct: it is not settable", name))
 	}
 	converted, err := rt.convertCallParameter(value, fieldValue.Type())
 	if err != nil {
